@@ -74,7 +74,7 @@ theorem runUpdater_same (u : Updater) (now v : Val) (p : String) (fs gs : Fields
     | ok last =>
       simp only [bind, Except.bind]
       cases dget p fs with
-      | none => exact .err _
+      | none => exact .keep
       | some c =>
         cases c <;> first | exact .err _ | exact .set _
   · simp only [runUpdater]
@@ -93,7 +93,7 @@ theorem usf_same (u : Updater) (now v : Val) (p : String) (rest : List String) (
     cases dget p fs with
     | some sub => exact SameEdit.bindSet _ _ _ _
     | none =>
-      by_cases hu : u = .unset
+      by_cases hu : (u = .unset || u = .pop) = true
       · simp only [hu, if_true]; exact .keep
       · simp only [hu, if_false]; exact SameEdit.bindSet _ _ _ _
 
@@ -226,7 +226,7 @@ theorem pullAllField_same (spec : Val) (field : String) (value : Val) (fs gs : F
   | cons q rest =>
     simp only []
     refine withSubdoc_same _ _ _ _ _ _ fs gs ?_ hg
-    simp only [← hg]
+    simp only [pullAllAt, ← hg]
     cases dget p fs with
     | none => exact .keep
     | some cur => exact SameEdit.bindSet _ _ _ _
